@@ -1,6 +1,7 @@
 package harness
 
 import (
+	"strings"
 	"bytes"
 	"encoding/binary"
 	"fmt"
@@ -108,6 +109,7 @@ type expSession struct {
 	// Write calls on the exporter's stream socket: when each was invoked and the message header it carried
 	writeCalls []writeCall
 	send2Ch    chan send2Req
+	calls2     []call2                         // data sets the second sender handed in for the first sender's templates
 	scratch    []entities.InfoElementWithValue // the application's re-used element list
 	pool       map[string][]pooledVal          // application-owned address values, handed in again and again
 	persist    map[int][]entities.InfoElementWithValue
@@ -367,6 +369,11 @@ type send2Req struct {
 	op plan.Op
 }
 
+type call2 struct {
+	Slot int
+	Err  error
+}
+
 func (s *expSession) startSecondSender() {
 	s.send2Ch = make(chan send2Req, 64)
 	s.env.Go("app2", func() {
@@ -382,6 +389,41 @@ func (s *expSession) startSecondSender() {
 			op := rq.op
 			if op.A > 0 {
 				s.env.Sleep(time.Duration(op.A) * time.Millisecond)
+			}
+			if op.S == "for" {
+				// a data set for one of the FIRST sender's template ids, handed in while that sender is
+				// (perhaps) in the middle of announcing it
+				slot := int(op.B)
+				var ti *tmplInfo
+				for try := 0; try < 40 && ti == nil; try++ {
+					s.mu.Lock()
+					ti = s.tmpls[slot]
+					s.mu.Unlock()
+					if ti == nil {
+						simrt.Yield("app2-wait-template")
+					}
+				}
+				if ti == nil {
+					continue
+				}
+				r := rand.New(rand.NewPCG(uint64(op.C), 0xda7e))
+				set.ResetSet()
+				set.PrepareSet(entities.Data, ti.ID)
+				elems := make([]entities.InfoElementWithValue, len(ti.Specs))
+				for k, sp := range ti.Specs {
+					e, err := registry.GetInfoElement(sp.Name, sp.Ent)
+					if err != nil {
+						panic(err)
+					}
+					elems[k] = mkElement(sp, e, genWire(r, sp, 16))
+				}
+				set.AddRecord(elems, ti.ID)
+				_, err := s.ep.SendSet(set)
+				s.mu.Lock()
+				s.calls2 = append(s.calls2, call2{Slot: slot, Err: err})
+				s.mu.Unlock()
+				s.env.Count("c09.second_sender_data_for_first_senders_template", 1)
+				continue
 			}
 			if op.B == 0 || len(mine) == 0 {
 				var specs []elemSpec
@@ -582,7 +624,9 @@ func (s *expSession) opTmpl(i int, op plan.Op) {
 		return
 	}
 	ti := &tmplInfo{ID: id, Specs: specs}
+	s.mu.Lock()
 	s.tmpls[slot] = ti
+	s.mu.Unlock()
 	c := callRec{Op: i, Kind: "tmpl", Slot: slot, Valid: true}
 	if 16+s.set.GetSetLength() > 65535 {
 		c.Valid, c.Expect, c.Why = false, "error", "oversize template"
@@ -1100,6 +1144,9 @@ func (s *expSession) checkWire(prop string) {
 		if err != nil || left != 0 {
 			s.env.Violate("wire-data-shape", loc, "wire message %d: data set %d does not decode under its template: err=%v leftover=%d", i, set.ID, err, left)
 			continue
+		}
+		if w.Call < 0 && strings.HasPrefix(w.By, "task:app2") {
+			continue // the second sender's data: shape checked above, values are its own
 		}
 		if w.Call < 0 || w.Call >= len(s.calls) {
 			s.env.Violate("wire-data-origin", loc, "wire message %d: data set not written by an application call", i)
